@@ -130,7 +130,14 @@ func init() {
 		return Tuple{a[0], cancel}
 	}
 	reg("context.WithTimeout", ctxDerive)
-	reg("context.WithCancel", ctxDerive)
+	reg("context.WithCancel", func(in *Interp, c *Frame, fn *ssa.Function, a []Value) Value {
+		if pkg := in.prog.ImportedPackage(strings.TrimSuffix(vxPkg, ".")); pkg != nil {
+			if m := pkg.Func("ModelWithCancel"); m != nil {
+				return in.callFunction(m, a, c)
+			}
+		}
+		return ctxDerive(in, c, fn, a)
+	})
 	reg("context.WithDeadline", ctxDerive)
 	reg("context.WithCancelCause", ctxDerive)
 	reg("context.WithValue", func(in *Interp, c *Frame, fn *ssa.Function, a []Value) Value { return a[0] })
@@ -229,18 +236,55 @@ func init() {
 	})
 
 	// ---------- sync ----------
-	for _, n := range []string{"(*sync.Mutex).Lock", "(*sync.Mutex).Unlock", "(*sync.RWMutex).Lock", "(*sync.RWMutex).Unlock",
-		"(*sync.RWMutex).RLock", "(*sync.RWMutex).RUnlock", "(*sync.WaitGroup).Add", "(*sync.WaitGroup).Done", "(*sync.WaitGroup).Wait",
-		"(*sync.Cond).Broadcast", "(*sync.Cond).Signal", "runtime.Gosched", "runtime.KeepAlive", "runtime.SetFinalizer",
+	for _, n := range []string{"(*sync.Mutex).Lock", "(*sync.RWMutex).Lock"} {
+		reg(n, func(in *Interp, c *Frame, fn *ssa.Function, a []Value) Value { in.muLock(a[0]); return nil })
+	}
+	for _, n := range []string{"(*sync.Mutex).Unlock", "(*sync.RWMutex).Unlock"} {
+		reg(n, func(in *Interp, c *Frame, fn *ssa.Function, a []Value) Value { in.mu(a[0]).w = false; return nil })
+	}
+	reg("(*sync.RWMutex).RLock", func(in *Interp, c *Frame, fn *ssa.Function, a []Value) Value { in.muRLock(a[0]); return nil })
+	reg("(*sync.RWMutex).RUnlock", func(in *Interp, c *Frame, fn *ssa.Function, a []Value) Value {
+		if m := in.mu(a[0]); m.r > 0 {
+			m.r--
+		}
+		return nil
+	})
+	reg("(*sync.WaitGroup).Add", func(in *Interp, c *Frame, fn *ssa.Function, a []Value) Value {
+		*in.wg(a[0]) += int(int64(in.concreteInt(a[1], "WaitGroup.Add delta")))
+		return nil
+	})
+	reg("(*sync.WaitGroup).Done", func(in *Interp, c *Frame, fn *ssa.Function, a []Value) Value { *in.wg(a[0])--; return nil })
+	reg("(*sync.WaitGroup).Wait", func(in *Interp, c *Frame, fn *ssa.Function, a []Value) Value {
+		n := in.wg(a[0])
+		if in.sch != nil {
+			in.block(func() bool { return *n <= 0 }, "WaitGroup.Wait")
+		}
+		return nil
+	})
+	for _, n := range []string{"(*sync.Cond).Broadcast", "(*sync.Cond).Signal", "runtime.Gosched", "runtime.KeepAlive", "runtime.SetFinalizer",
 		"(*sync.noCopy).Lock", "(*sync.noCopy).Unlock", "internal/race.Acquire", "internal/race.Release", "internal/race.ReleaseMerge",
 		"internal/race.Disable", "internal/race.Enable", "internal/race.Read", "internal/race.Write"} {
 		reg(n, nop)
 	}
 	reg("(*sync.WaitGroup).Go", func(in *Interp, c *Frame, fn *ssa.Function, a []Value) Value {
-		in.callClosure(a[1].(*Closure), nil, c)
+		n := in.wg(a[0])
+		*n++
+		f := a[1].(*Closure)
+		in.spawn(c, &Closure{native: func(in *Interp, _ []Value) Value {
+			in.callClosure(f, nil, c)
+			*n--
+			return nil
+		}}, nil)
 		return nil
 	})
-	reg("(*sync.Mutex).TryLock", func(in *Interp, c *Frame, fn *ssa.Function, a []Value) Value { return in.st.True })
+	reg("(*sync.Mutex).TryLock", func(in *Interp, c *Frame, fn *ssa.Function, a []Value) Value {
+		m := in.mu(a[0])
+		if m.w || m.r > 0 {
+			return in.st.False
+		}
+		m.w = true
+		return in.st.True
+	})
 	reg("(*sync.Pool).Get", func(in *Interp, c *Frame, fn *ssa.Function, a []Value) Value {
 		p := a[0].(Ptr)
 		pool := in.load(p).(*Agg)
